@@ -18,9 +18,10 @@ import (
 )
 
 // sourceTables collects the table names and `as` names a parsed program
-// mentions; ok=false when the program is outside C05's domain (it uses
-// __subquery names itself, repeats an `as` name, or calls a function whose
-// name is an SQL structural keyword).
+// mentions; ok=false when the program is outside C05's domain (it repeats an
+// `as` name, or calls a function whose name is an SQL structural keyword).
+// Names that look like generated ones (`__subquery1`) are inside the domain:
+// a generated name has to be unique whatever the source calls its tables.
 func sourceTables(stmts []parser.Statement) (tables map[string]bool, ok bool, why string) {
 	tables = map[string]bool{}
 	asNames := map[string]bool{}
@@ -38,10 +39,6 @@ func sourceTables(stmts []parser.Statement) (tables map[string]bool, ok bool, wh
 						ok, why = false, "repeated `as` name"
 					}
 					asNames[n.Name.Name] = true
-				}
-			case *parser.Ident:
-				if strings.HasPrefix(n.Name, "__subquery") {
-					ok, why = false, "source uses a __subquery name"
 				}
 			case *parser.CallExpr:
 				if _, builtin := gen.Builtins[n.Func.Name]; n.Func != nil && !builtin && sqlKeywords[strings.ToUpper(n.Func.Name)] {
